@@ -118,6 +118,8 @@ def catalogue():
     c['notif-overlong'] = (rw.notification(3, 1, bytes(range(256)) * 3), allst, {'*': 'silent'})
     c['notif-binary-data'] = (rw.notification(1, 2, b'\xff\xfe\x00\x80'), allst, {'*': 'silent'})
     c['notif-unknown-code'] = (rw.notification(99, 77, b'\x01'), allst, {'*': 'silent'})
+    # a NOTIFICATION longer than 4096 octets is legal once extended messages are negotiated (RFC 8654 exempts OPEN and KEEPALIVE only)
+    c['notif-5000-octets:ext'] = (rw.notification(3, 1, bytes(range(256)) * 19 + bytes(115)), ('established',), {'*': 'silent'})
     # timers / API
     c['hold-expiry'] = (None, ('established',), {'*': {(4, 0)}})
     c['api-teardown-4'] = (None, ('established',), {'*': {(6, 4)}})
@@ -148,6 +150,7 @@ def build_case(fault, state, mode, cat, gr=False):
         'routes': 1200 if state == 'midbatch' else 2,
         'group_updates': False if state == 'midbatch' else None,
         'gr': 120 if gr else None,
+        'extmsg': fault.endswith(':ext'),
     }
     steps = []
     first = ['connect'] if mode == 'passive' else ['accept', 20.0]
